@@ -13,7 +13,7 @@ CLAUSE_PROPS = {
     "B scaling relation": {"C11", "C07"}, "query info>n": {"C14"}, "query estimate>0": {"C14"},
     "query X untouched": {"C14"}, "query retains memory": {"C17"}, "query clobbers existing factors / permutations": {"C14", "C08", "C18", "C17"}, "FACTORED modified A": {"C08"},
     "FACTORED modified perms": {"C08"}, "FACTORED modified L/U": {"C08"}, "FACTORED retains memory": {"C17"},
-    "DOFACT equed": {"C11"}, "refact retains memory": {"C17"}, "factors inside workspace": {"C14"},
+    "DOFACT equed": {"C11", "C07"}, "refact retains memory": {"C17"}, "factors inside workspace": {"C14"},
     "X untouched on singular": {"C06"}, "info=n+1 iff rcond<eps": {"C12"},
     "backward error of X (original system)": {"C07", "C08", "C01"}, "berr truthful": {"C13"}, "ferr dominates": {"C13"},
     "rcond sandwich": {"C12"}, "pivot growth": {"C12"}, "diagonal pivots (perm_r = perm_c)": {"C16"},
@@ -233,11 +233,11 @@ def run_histories(ck, alphabet, depth, count, rng, precs=("d",), threads=(1, 2, 
 SESSION_ALPHABET = ["mat", "onemat", "vals", "ses", "destroy", "trans", "user", "scon"]
 
 
-def run_sessions(ck, depth, count, rng, precs=("d",), threads=(1, 2, 4), nmax=24, pert=None, hist_filter=None, simulate=None, extra=()):
+def run_sessions(ck, depth, count, rng, precs=("d",), threads=(1, 2, 4), nmax=24, pert=None, hist_filter=None, simulate=None, extra=(), validate_pipe=True):
     """histories over the computational routines called directly, as EXAMPLE/pdrepeat.c does: p?gstrf_init (first / refact / refact+usepr,
     system memory or the caller's workspace), p?gstrf, ?gstrs (N/T/C), ?gscon (1/I), Destroy_CompCol_Permuted, pxgstrf_finalize, the
     destroy routines, new values in between; one matrix per history; enumerated exhaustively by TLC to the given depth"""
     def flt(h):
         return any(c["call"] == "sfactor" for c in h) and (hist_filter is None or hist_filter(h))
     run_histories(ck, SESSION_ALPHABET + list(extra), depth, count, rng, precs=precs, threads=threads, nmax=nmax, pert=pert, hist_filter=flt,
-                  script_kw={"scale_for_equil": False}, simulate=simulate, tag="_ses")
+                  script_kw={"scale_for_equil": False}, simulate=simulate, tag="_ses", validate_pipe=validate_pipe)
